@@ -150,6 +150,60 @@ fn phase_a_chain(s: &str, rec: &mut Rec) {
     }
 }
 
+/// Phase A3: one buffer, two contents. `a` is processed from a buffer, then `b` - of exactly the same byte length -
+/// is written into the same buffer (same address, same length) and processed; the results for `b` must equal
+/// those for a copy of `b` at another address. Whatever was remembered about the slice must not outlive its
+/// content.
+fn phase_a_reuse(a: &str, b: &str, rec: &mut Rec) {
+    if a.len() != b.len() || a == b {
+        return;
+    }
+    let mut buf = String::with_capacity(a.len() + 16);
+    for p in ALL_PROF {
+        for enforce in [false, true] {
+            for (x, y) in [(a, b), (b, a)] {
+                buf.clear();
+                buf.push_str(x);
+                let _ = if enforce { api::enforce(p, &buf) } else { api::prepare(p, &buf) };
+                buf.clear();
+                buf.push_str(y);
+                let same_place = if enforce { api::enforce(p, &buf) } else { api::prepare(p, &buf) };
+                let copy = y.to_string();
+                let elsewhere = if enforce { api::enforce(p, &copy) } else { api::prepare(p, &copy) };
+                rec.evals(3);
+                rec.count("reused-buffer:same-address-other-content");
+                if same_place != elsewhere {
+                    rec.violation(
+                        "result-depends-on-call-history",
+                        Witness {
+                            op: format!("{}::{} on a buffer that held \"{}\" before", p.name(), if enforce { "enforce" } else { "prepare" }, util::esc(x)),
+                            case: format!("profile={};op={};label={}", p.name(), if enforce { "enforce" } else { "prepare" }, util::esc(y)),
+                            expected: api::show(&elsewhere),
+                            observed: api::show(&same_place),
+                        },
+                    );
+                }
+            }
+        }
+    }
+}
+
+/// labels of equal byte length that differ in what the context rules, the Bidi rule and the mappings see
+const REUSE_PAIRS: [(&str, &str); 12] = [
+    ("\u{661}\u{662}\u{663}", "\u{661}\u{6F2}\u{663}"),
+    ("\u{6F0}\u{6F1}", "\u{660}\u{6F1}"),
+    ("\u{30A2}\u{30FB}", "abc\u{30FB}"),
+    ("l\u{B7}l", "a\u{B7}b"),
+    ("\u{3B1}\u{375}\u{3B2}", "ab\u{375}\u{3B2}"),
+    ("\u{5D0}\u{5F3}", "ab\u{5F3}"),
+    ("\u{915}\u{94D}\u{200D}", "\u{915}\u{915}\u{200D}"),
+    ("\u{5D0}\u{5D1}1", "ab\u{5D1}1"),
+    ("\u{FF21}b", "abcd"),
+    ("A\u{30A}", "a\u{E5}"),
+    ("alice", "Bobby"),
+    ("a \u{A0}b", "a  bc"),
+];
+
 struct Case {
     op: &'static str,
     profile: &'static str,
@@ -487,6 +541,11 @@ pub fn run(env: &Env) -> Rec {
             if j % 4 == 0 {
                 phase_a_chain(&s, rec);
             }
+            if j % 4 == 1 {
+                if let Some(t) = super::hostile::same_length_variant(&mut rng, &s) {
+                    phase_a_reuse(&s, &t, rec);
+                }
+            }
             prev = s;
         }
     });
@@ -521,6 +580,11 @@ pub fn run(env: &Env) -> Rec {
         for s in [w.to_string(), format!("\u{FF21}{}", w), format!("{} ", w), format!(" {}\u{A0}x", w), format!("x{}", w)] {
             phase_a_one(&ll, &s, w, &mut rec);
         }
+    }
+    for (a, b) in REUSE_PAIRS {
+        phase_a_reuse(a, b, &mut rec);
+        // the same inside longer labels of equal length
+        phase_a_reuse(&format!("xy{}", a), &format!("xy{}", b), &mut rec);
     }
     phases_bc(env, &mut rec);
     rec
